@@ -45,6 +45,7 @@ class Step:
         self.index_vars = set(index_vars)     # component loop variables: X[i] is the scalar X
         self.aliases = dict(aliases or {})    # local reference name -> key
         self.hooks = {}                       # operator -> callable(expr, env): caller-supplied meaning of a call
+        self.fallback = None                  # callable(expr, env) -> value | NotImplemented, asked before an expression is given up
 
     def key(self, t):
         while isinstance(t, tuple):
@@ -141,6 +142,10 @@ class Step:
                 raise Unsupported('compound assignment to unknown %s' % k)
             env[k] = ARI[op[0]](env[k], self.ev(t[2], env))
             return env[k]
+        if self.fallback is not None:
+            r = self.fallback(t, env)
+            if r is not NotImplemented:
+                return r
         raise Unsupported('expression %s' % (t,))
 
     def run(self, node, env, ignore=()):
